@@ -346,6 +346,7 @@ pub fn run_history(hist: &Value, out: &mut dyn Write) {
     let align = mpo.and_then(|m| m.get("align")).and_then(|x| x.as_str()).unwrap_or("top").to_string();
     rec.insert("cfg".into(), json!({"w": cfg["w"].as_u64().unwrap_or(80), "h": cfg["h"].as_u64().unwrap_or(24), "multi": mpo.is_some(), "mphid": mphid, "align": align,
         "pty": mpo.map(|m| m.get("target").and_then(|x| x.as_str()) == Some("pty")).unwrap_or(false),
+        "hz": mpo.filter(|m| m.get("target").and_then(|x| x.as_str()) == Some("spy_hz")).and_then(|m| m.get("hz")).and_then(|x| x.as_u64()).unwrap_or(0),
         "x": cfg.get("x").cloned().unwrap_or(json!({}))}));
     rec.insert("calls".into(), calls);
     rec.insert("q".into(), json!(q));
